@@ -84,11 +84,14 @@ def run(ck):
               ("m", ("r", [(0, "F", 0, 0, [], ("n", 1, 1))]), ("r", [(0, ("p", 5, 1), 0, 0, [], ("n", 2, 1))])),
               ("m", ("r", [(0, "x", 1, 0, [], None)]), ("r", [(0, "x", 1, 0, [], None)])),
               ("m", ("r", [(0, "x", 0, 1, [], ("n", 1, 1))]), ("r", [(0, "x", 0, 0, [], ("n", 1, 1))]))]
-    exprs = corpus + exprs
+    # chains of three definitions of the same field (a priority is only observable through a further merge)
+    chains = [g.gen_chain_triple(rng.fork()) for _ in range(500)] if ck.tier == "quick" else g.all_chain_triples(flags=False)
+    exprs = corpus + exprs + [("m", ("m", a, b), c) for (a, b, c) in chains] + [("m", a, ("m", b, c)) for (a, b, c) in chains[:len(chains) // 2]]
+    ck.coverage["chains_of_three"] = len(chains)
     impl, mod = m.run_both(ck, exe, exprs)
     ndis = 0
     for e, a, b in zip(exprs, impl, mod):
-        ck.case(key=g.sexp(e), nontrivial=(len(e[1][1]) > 0 and len(e[2][1]) > 0))
+        ck.case(key=g.sexp(e), nontrivial=(e[1][0] == "m" or e[2][0] == "m" or (len(e[1][1]) > 0 and len(e[2][1]) > 0)))
         ck.hist("outcome", m.outcome_class(a))
         if m.crashed(a):
             ck.violation("crash", "interpreter crashed on " + g.nickel(e), {"program": g.program(e), "impl": a})
